@@ -152,6 +152,11 @@ func (e *Engine) callFunction(st *State, fn *ssa.Function, args []Value, bind []
 	start := &pend{key: []int{fi.rpo[entry]}, b: entry, st: &State{G: st.G, Heap: st.Heap, Th: st.Th}, regs: regs}
 	queue := []*pend{start}
 	var rets []retInfo
+	if e.GoPolicy == "coro" {
+		e.frames = append(e.frames, &frameRec{queue: &queue, rets: &rets})
+		nf := len(e.frames)
+		defer func() { e.frames = e.frames[:nf-1] }()
+	}
 
 	push := func(p *pend) {
 		// find equal key
